@@ -70,9 +70,9 @@ CmpCalls ==
 (* ------------------------------ append ---------------------------------- *)
 AppIn  == {a, IntT(1), Flt(3, -1), Cx("f", <<a>>), EmptyList, Lst(<<a>>), Lst(<<a, b>>),
            Lst(<<Lst(<<a>>)>>), Lst(<<a, Lst(<<b>>)>>), Lst(<<a, EmptyList>>), Lst(<<EmptyList>>),
-           X, LstT(<<a>>, Y), Lst(<<X, b>>)}
+           X, LstT(<<a>>, Y), Lst(<<X, b>>), Lst(<<X>>), LstT(<<X>>, Y)}
 AppInQ == {a, Cx("f", <<a>>), EmptyList, Lst(<<a, b>>), Lst(<<a, Lst(<<b>>)>>), Lst(<<a, EmptyList>>),
-           X, LstT(<<a>>, Y)}
+           X, LstT(<<a>>, Y), Lst(<<X>>)}       \* (a list whose only element is a variable)
 AppPriors == {P(b, Lst(<<b, Atom("c")>>), NoT), P(Lst(<<Atom("c"), Lst(<<Atom("d")>>)>>), EmptyList, NoT),
               P(Z, Lst(<<Lst(<<Atom("d")>>)>>), Atom("c")), P(Cx("f", <<b>>), LstT(<<a>>, Z), Lst(<<Cx("f", <<a>>)>>)),
               P(Z, Lst(<<b>>), IntT(7))}
